@@ -26,6 +26,7 @@ type Reply struct {
 	FailAt    int           // ... after this many bytes
 	Hang      bool          // never answer; return ctx error once the context ends
 	Proto     string        // "" = HTTP/1.1
+	Chunked   bool          // unknown length: ContentLength -1, Transfer-Encoding chunked (as a real transport reports it)
 	Note      string // free text for samples
 }
 
@@ -214,6 +215,14 @@ func (o *Origin) RoundTrip(req *http.Request) (*http.Response, error) {
 		Header:        h,
 		ContentLength: int64(len(body)),
 		Request:       req,
+	}
+	if rep.Chunked && !rep.NoBody {
+		resp.ContentLength = -1
+		if mnr == 1 && maj == 1 {
+			resp.TransferEncoding = []string{"chunked"}
+		} else {
+			resp.Close = true
+		}
 	}
 	if rep.NoBody {
 		resp.Body = http.NoBody
